@@ -11,7 +11,9 @@ Ltac refs_unfold :=
   unfold tol_identity, tol_default, wien_x, ref_speed_of_light, ref_planck, ref_hbar, ref_elementary_charge,
     ref_boltzmann_constant, ref_avogadro_constant, ref_molar_gas_constant, ref_faraday_constant,
     ref_stefan_boltzmann_constant, ref_wien_displacement_constant, ref_vacuum_permeability,
-    ref_vacuum_permittivity, ref_vacuum_impedance, ref_electron_rest_mass, ref_richardson_constant.
+    ref_vacuum_permittivity, ref_vacuum_impedance, ref_electron_rest_mass, ref_richardson_constant,
+    ref_proton_rest_mass, ref_neutron_rest_mass, ref_atomic_mass_constant, ref_fine_structure_constant,
+    ref_rydberg_constant, ref_bohr_magneton, ref_rydberg_frequency, ref_bohr_radius.
 
 Ltac refs_interval := refs_unfold; interval with (i_prec 120).
 
@@ -82,7 +84,27 @@ Lemma refs_dims_consistent :
   = true.
 Proof. vm_compute. reflexivity. Qed.
 
-(* all of the above in one statement (one Print Assumptions instead of ten in Properties/C20.v) *)
+(* reserve entries: cross-checks among the reference values (CODATA 2018 ratios and defining relations) *)
+Lemma refs_nucleon_masses :
+  ref_proton_rest_mass < ref_neutron_rest_mass /\
+  Rabs (ref_neutron_rest_mass / ref_proton_rest_mass / 1.00137841931 - 1) <= tol_identity /\
+  Rabs (ref_proton_rest_mass / ref_electron_rest_mass / 1836.15267343 - 1) <= tol_identity.
+Proof. repeat split; refs_interval. Qed.
+
+(* alpha = e^2 / (4 pi eps0 hbar c),  R_inf = alpha^2 m_e c / (2 h),  c R_inf,  a0 = hbar / (m_e c alpha),
+   mu_B = e hbar / (2 m_e) *)
+Lemma refs_atomic :
+  Rabs (ref_fine_structure_constant /
+        (ref_elementary_charge ^ 2 / (4 * PI * ref_vacuum_permittivity * ref_hbar * ref_speed_of_light)) - 1) <= 1e-8 /\
+  Rabs (ref_rydberg_constant /
+        (ref_fine_structure_constant ^ 2 * ref_electron_rest_mass * ref_speed_of_light / (2 * ref_planck)) - 1) <= 1e-8 /\
+  Rabs (ref_rydberg_frequency / (ref_speed_of_light * ref_rydberg_constant) - 1) <= tol_identity /\
+  Rabs (ref_bohr_radius /
+        (ref_hbar / (ref_electron_rest_mass * ref_speed_of_light * ref_fine_structure_constant)) - 1) <= 1e-8 /\
+  Rabs (ref_bohr_magneton / (ref_elementary_charge * ref_hbar / (2 * ref_electron_rest_mass)) - 1) <= 1e-8.
+Proof. repeat split; refs_interval. Qed.
+
+(* all of the above in one statement (one Print Assumptions instead of twelve in Properties/C20.v) *)
 Lemma refs_consistent :
   (Rabs (ref_molar_gas_constant / (ref_boltzmann_constant * ref_avogadro_constant) - 1) <= tol_identity) /\
   (Rabs (ref_faraday_constant / (ref_elementary_charge * ref_avogadro_constant) - 1) <= tol_identity) /\
@@ -93,17 +115,7 @@ Lemma refs_consistent :
   (Rabs (ref_wien_displacement_constant / (ref_planck * ref_speed_of_light / (wien_x * ref_boltzmann_constant)) - 1) <= tol_identity) /\
   (Rabs (ref_wien_displacement_constant / (ref_planck * ref_speed_of_light / (4.965114 * ref_boltzmann_constant)) - 1) <= 1e-7) /\
   (Rabs (wien_x - 5 * (1 - exp (- wien_x))) <= 1e-12) /\
-  (Rabs (ref_richardson_constant / 1.20173e6 - 1) <= 1e-5).
-Proof.
-  repeat split.
-  - exact refs_gas_constant.
-  - exact refs_faraday.
-  - exact refs_hbar.
-  - exact refs_maxwell.
-  - exact refs_impedance.
-  - exact refs_stefan_boltzmann.
-  - exact refs_wien.
-  - exact refs_wien_truncated.
-  - exact refs_wien_root.
-  - exact refs_richardson.
-Qed.
+  (Rabs (ref_richardson_constant / 1.20173e6 - 1) <= 1e-5) /\
+  (ref_proton_rest_mass < ref_neutron_rest_mass /\ Rabs (ref_neutron_rest_mass / ref_proton_rest_mass / 1.00137841931 - 1) <= tol_identity /\ Rabs (ref_proton_rest_mass / ref_electron_rest_mass / 1836.15267343 - 1) <= tol_identity) /\
+  (Rabs (ref_fine_structure_constant / (ref_elementary_charge ^ 2 / (4 * PI * ref_vacuum_permittivity * ref_hbar * ref_speed_of_light)) - 1) <= 1e-8 /\ Rabs (ref_rydberg_constant / (ref_fine_structure_constant ^ 2 * ref_electron_rest_mass * ref_speed_of_light / (2 * ref_planck)) - 1) <= 1e-8 /\ Rabs (ref_rydberg_frequency / (ref_speed_of_light * ref_rydberg_constant) - 1) <= tol_identity /\ Rabs (ref_bohr_radius / (ref_hbar / (ref_electron_rest_mass * ref_speed_of_light * ref_fine_structure_constant)) - 1) <= 1e-8 /\ Rabs (ref_bohr_magneton / (ref_elementary_charge * ref_hbar / (2 * ref_electron_rest_mass)) - 1) <= 1e-8).
+Proof. exact (conj refs_gas_constant (conj refs_faraday (conj refs_hbar (conj refs_maxwell (conj refs_impedance (conj refs_stefan_boltzmann (conj refs_wien (conj refs_wien_truncated (conj refs_wien_root (conj refs_richardson (conj refs_nucleon_masses refs_atomic))))))))))). Qed.
